@@ -15,7 +15,7 @@ use white_whale_std::pool_network::incentive_factory;
 
 pub const SELF_ID: i64 = 100;
 pub const COLLECTOR_ID: i64 = 9;
-pub const HELPER_ID: i64 = 11;
+pub const HELPER_ID: i64 = 101;
 pub const ASSETS: [i64; 6] = [0, 1, 2, 3, 10, 11];
 /// accounts whose balances are observed, in observation order
 pub const OBS_ACCOUNTS: [i64; 7] = [SELF_ID, COLLECTOR_ID, 0, 1, 2, 3, 4];
@@ -108,6 +108,9 @@ pub enum Op {
     ExpandPosition { sender: i64, #[serde(with = "coins")] funds: Coins, #[serde(with = "coins")] allow: Coins, #[serde(with = "u128s")] amount: u128, dur: u64, receiver: Option<i64> },
     ClosePosition { sender: i64, dur: u64, now: u64 },
     Withdraw { sender: i64 },
+    /// frontend_helper Deposit; `pair_ok` / `minted` are filled in by `exec` (the pair is an oracle of the model)
+    HelperDeposit { user: i64, #[serde(with = "coins")] funds: Coins, #[serde(with = "coins")] allow: Coins, a0: i64, #[serde(with = "u128s")] d0: u128, a1: i64, #[serde(with = "u128s")] d1: u128,
+                    dur: u64, pair_ok: bool, #[serde(with = "u128s")] minted: u128 },
 }
 
 fn coq_coins(c: &Coins) -> String { coqlist(&c.iter().map(|(a, v)| format!("({}, {})", a, v)).collect::<Vec<_>>()) }
@@ -131,6 +134,8 @@ impl Op {
                 format!("ExpandPosition {} {} {} {} {} {}", sender, coq_coins(funds), coq_coins(allow), amount, dur, coq_opt(receiver)),
             Op::ClosePosition { sender, dur, now } => format!("ClosePosition {} {} {}", sender, dur, now),
             Op::Withdraw { sender } => format!("Withdraw {}", sender),
+            Op::HelperDeposit { user, funds, allow, a0, d0, a1, d1, dur, pair_ok, minted } =>
+                format!("HelperDeposit {} {} {} {} {} {} {} {} {} {}", user, coq_coins(funds), coq_coins(allow), a0, d0, a1, d1, dur, coqbool(*pair_ok), minted),
         }
     }
     pub fn kind(&self) -> &'static str {
@@ -138,7 +143,7 @@ impl Op {
             Op::NewEpoch => "NewEpoch", Op::Donate { .. } => "Donate", Op::Snapshot => "Snapshot", Op::OpenFlow { .. } => "OpenFlow",
             Op::ExpandFlow { .. } => "ExpandFlow", Op::CloseFlow { .. } => "CloseFlow", Op::Claim { .. } => "Claim",
             Op::OpenPosition { .. } => "OpenPosition", Op::ExpandPosition { .. } => "ExpandPosition",
-            Op::ClosePosition { .. } => "ClosePosition", Op::Withdraw { .. } => "Withdraw",
+            Op::ClosePosition { .. } => "ClosePosition", Op::Withdraw { .. } => "Withdraw", Op::HelperDeposit { .. } => "HelperDeposit",
         }
     }
     pub fn sender(&self) -> Option<i64> {
@@ -147,6 +152,7 @@ impl Op {
             Op::Donate { sender, .. } | Op::OpenFlow { sender, .. } | Op::ExpandFlow { sender, .. } | Op::CloseFlow { sender, .. }
             | Op::Claim { sender } | Op::OpenPosition { sender, .. } | Op::ExpandPosition { sender, .. }
             | Op::ClosePosition { sender, .. } | Op::Withdraw { sender } => Some(*sender),
+            Op::HelperDeposit { user, .. } => Some(*user),
         }
     }
 }
@@ -184,11 +190,13 @@ pub struct IncWorld {
     pub distributor: Addr,
     pub cw20: [Addr; 2],
     pub helper: Option<Addr>,
+    pub pair: Option<Addr>,
 }
 
 pub fn init_balance(acct: i64, asset: i64) -> u128 {
     if (0..=4).contains(&acct) { if asset < 10 { RICH } else { RICH / 8 } } else { 0 }
 }
+pub const PAIR_ID: i64 = 102;
 
 pub fn account_name(id: i64) -> String {
     match id {
@@ -222,6 +230,9 @@ impl IncWorld {
         if let Some(h) = &self.helper { if h.as_str() == name { return HELPER_ID; } }
         -1
     }
+    /// in the helper world asset 10 is the pair's LP token: nobody holds any at the start
+    pub fn init_bal(&self, acct: i64, asset: i64) -> u128 { if self.helper.is_some() && asset == 10 { 0 } else { init_balance(acct, asset) } }
+    pub fn obs_accounts(&self) -> Vec<i64> { let mut v = OBS_ACCOUNTS.to_vec(); if self.helper.is_some() { v.push(HELPER_ID); } v }
     pub fn bal(&self, acct: i64, asset: i64) -> u128 { asset_balance(&self.app, &self.asset_info(asset), &self.name(acct)) }
 
     pub fn deploy(cfg: &IncCfg) -> Result<IncWorld, String> {
@@ -252,7 +263,96 @@ impl IncWorld {
         let inc: incentive_factory::IncentiveResponse = app.wrap().query_wasm_smart(&factory, &incentive_factory::QueryMsg::Incentive { lp_asset: info(cfg.lp) })
             .map_err(|e| e.to_string())?;
         let incentive = inc.ok_or("no incentive")?;
-        Ok(IncWorld { app, cfg: cfg.clone(), factory, incentive, distributor, cw20, helper: None })
+        Ok(IncWorld { app, cfg: cfg.clone(), factory, incentive, distributor, cw20, helper: None, pair: None })
+    }
+
+    /// world for the frontend helper: a real constant-product pair over (a0, a1), its cw20 LP token becomes asset 10,
+    /// an incentive contract for that LP token, and the frontend helper. cfg.lp must be 10.
+    pub fn deploy_with_helper(cfg: &IncCfg, a0: i64, a1: i64) -> Result<IncWorld, String> {
+        let mut app = new_app();
+        app.update_block(|b| { b.time = Timestamp::from_seconds(START_TIME); });
+        let cw20_code = app.store_code(cw20_base_contract());
+        let token_code = app.store_code(token_contract());
+        let pair_code = app.store_code(pair_contract());
+        let inc_code = app.store_code(incentive_code());
+        let fac_code = app.store_code(incentive_factory_code());
+        let dist_code = app.store_code(distributor_mock_code());
+        let helper_code = app.store_code(frontend_helper_code());
+        let tok_b = deploy_cw20(&mut app, cw20_code, "TOKB", 6);
+        let info0 = |a: i64, tb: &Addr| if a < 10 { native(DENOMS[a as usize]) } else { token(tb) };
+        let pair = app.instantiate_contract(pair_code, Addr::unchecked(OWNER), &white_whale_std::pool_network::pair::InstantiateMsg {
+            asset_infos: [info0(a0, &tok_b), info0(a1, &tok_b)], token_code_id: token_code, asset_decimals: [6, 6],
+            pool_fees: pool_fee(0, 3 * DEC / 1000, 0), fee_collector_addr: COLLECTOR.to_string(),
+            pair_type: white_whale_std::pool_network::asset::PairType::ConstantProduct, token_factory_lp: false,
+        }, &[], "pair", None).map_err(|e| format!("{:#}", e))?;
+        let pinfo: white_whale_std::pool_network::asset::PairInfo = app.wrap().query_wasm_smart(&pair, &white_whale_std::pool_network::pair::QueryMsg::Pair {}).map_err(|e| e.to_string())?;
+        let lp = match pinfo.liquidity_token { AssetInfo::Token { contract_addr } => Addr::unchecked(contract_addr), _ => return Err("native lp".into()) };
+        let cw20 = [lp.clone(), tok_b];
+        let info = |a: i64| if a < 10 { native(DENOMS[a as usize]) } else { token(&cw20[(a - 10) as usize]) };
+        let distributor = app.instantiate_contract(dist_code, Addr::unchecked(OWNER), &fee_distributor_mock::msg::InstantiateMsg {}, &[], "dist", None)
+            .map_err(|e| format!("{:#}", e))?;
+        let factory = app.instantiate_contract(fac_code, Addr::unchecked(OWNER), &incentive_factory::InstantiateMsg {
+            fee_collector_addr: COLLECTOR.to_string(), fee_distributor_addr: distributor.to_string(),
+            create_flow_fee: Asset { info: info(cfg.fee_asset), amount: Uint128::new(cfg.fee) },
+            max_concurrent_flows: cfg.max_flows, incentive_code_id: inc_code, max_flow_epoch_buffer: cfg.buffer,
+            min_unbonding_duration: cfg.min_unb, max_unbonding_duration: cfg.max_unb,
+        }, &[], "factory", None).map_err(|e| format!("{:#}", e))?;
+        app.execute_contract(Addr::unchecked(OWNER), factory.clone(), &incentive_factory::ExecuteMsg::CreateIncentive { lp_asset: info(10) }, &[])
+            .map_err(|e| format!("{:#}", e))?;
+        let inc: incentive_factory::IncentiveResponse = app.wrap().query_wasm_smart(&factory, &incentive_factory::QueryMsg::Incentive { lp_asset: info(10) })
+            .map_err(|e| e.to_string())?;
+        let incentive = inc.ok_or("no incentive")?;
+        let helper = app.instantiate_contract(helper_code, Addr::unchecked(OWNER),
+            &white_whale_std::pool_network::frontend_helper::InstantiateMsg { incentive_factory: factory.to_string() }, &[], "helper", None)
+            .map_err(|e| format!("{:#}", e))?;
+        Ok(IncWorld { app, cfg: cfg.clone(), factory, incentive, distributor, cw20, helper: Some(helper), pair: Some(pair) })
+    }
+
+    /// what the constant-product pair will mint for (d0, d1), computed from its public Pool query (oracle input of the model)
+    pub fn predict_mint(&self, d0: u128, d1: u128) -> u128 {
+        let pair = match &self.pair { Some(p) => p.clone(), None => return 0 };
+        let pool: white_whale_std::pool_network::pair::PoolResponse = match self.app.wrap().query_wasm_smart(&pair, &white_whale_std::pool_network::pair::QueryMsg::Pool {}) { Ok(p) => p, Err(_) => return 0 };
+        let s = pool.total_share.u128();
+        let (p0, p1) = (pool.assets[0].amount.u128(), pool.assets[1].amount.u128());
+        use cosmwasm_std::Uint256;
+        if s == 0 {
+            let prod = Uint256::from(d0) * Uint256::from(d1);
+            let r: u128 = Uint128::try_from(prod.isqrt()).map(|x| x.u128()).unwrap_or(0);
+            r.saturating_sub(1000)
+        } else {
+            if p0 == 0 || p1 == 0 { return 0; }
+            let x = Uint128::try_from(Uint256::from(d0) * Uint256::from(s) / Uint256::from(p0)).map(|x| x.u128()).unwrap_or(u128::MAX);
+            let y = Uint128::try_from(Uint256::from(d1) * Uint256::from(s) / Uint256::from(p1)).map(|x| x.u128()).unwrap_or(u128::MAX);
+            x.min(y)
+        }
+    }
+
+    /// runs a helper deposit and fills in the oracle fields (pair_ok, minted) of the op
+    pub fn exec_helper(&mut self, op: &mut Op) -> Result<(), String> {
+        if let Op::HelperDeposit { user, funds, allow, a0, d0, a1, d1, dur, pair_ok, minted } = op {
+            let helper = self.helper.clone().ok_or("no helper")?;
+            let pair = self.pair.clone().ok_or("no pair")?;
+            self.set_allowances_for(*user, allow, &helper);
+            let predicted = self.predict_mint(*d0, *d1);
+            let lp_before = self.bal(SELF_ID, 10) + self.bal(HELPER_ID, 10);
+            let msg = white_whale_std::pool_network::frontend_helper::ExecuteMsg::Deposit {
+                pair_address: pair.to_string(),
+                assets: [Asset { info: self.asset_info(*a0), amount: Uint128::new(*d0) }, Asset { info: self.asset_info(*a1), amount: Uint128::new(*d1) }],
+                slippage_tolerance: None, unbonding_duration: *dur };
+            let s = Addr::unchecked(self.name(*user));
+            let f = self.coins(funds);
+            let app = &mut self.app;
+            let r = match std::panic::catch_unwind(std::panic::AssertUnwindSafe(|| app.execute_contract(s, helper, &msg, &f))) {
+                Ok(Ok(_)) => Ok(()),
+                Ok(Err(e)) => Err(format!("{:#}", e)),
+                Err(_) => Err("PANIC".into()),
+            };
+            match &r {
+                Ok(()) => { *pair_ok = true; *minted = self.bal(SELF_ID, 10) + self.bal(HELPER_ID, 10) - lp_before; }
+                Err(e) => { *pair_ok = !e.contains("Failed to deposit due to"); *minted = if *pair_ok { predicted } else { 0 }; }
+            }
+            r
+        } else { Err("not a helper op".into()) }
     }
 
     pub fn epoch(&self) -> u64 {
@@ -345,6 +445,7 @@ impl IncWorld {
                 self.exec_inc(*sender, &incentive::ExecuteMsg::ClosePosition { unbonding_duration: *dur }, &vec![])
             }
             Op::Withdraw { sender } => self.exec_inc(*sender, &incentive::ExecuteMsg::Withdraw {}, &vec![]),
+            Op::HelperDeposit { .. } => Err("use exec_helper".into()),
         }
     }
 
@@ -434,7 +535,7 @@ impl IncWorld {
         let st = self.state();
         o.push(self.epoch().to_string());
         // balances are printed relative to the initial funding (small literals keep the Coq side fast)
-        for a in OBS_ACCOUNTS { for s in ASSETS { o.push((self.bal(a, s) as i128 - init_balance(a, s) as i128).to_string()); } }
+        for a in self.obs_accounts() { for s in ASSETS { o.push((self.bal(a, s) as i128 - self.init_bal(a, s) as i128).to_string()); } }
         o.push(st.gw.to_string());
         o.push(st.counter.to_string());
         for u in USER_IDS {
